@@ -1,110 +1,95 @@
 /-
   C20 — rebuilt source parses back to the same tree (and the parser half of C16).
 
-  The rebuilder is modelled at token level (`Syn.printExpr` …, one arm per node kind of
-  src/alpha/rebuilder.rs), the parser by the reference parser `Syn.parseExpr` … (the grammar of
-  src/delta/parser.rs / src/alpha/parser.rs).  For every expression tree the parser can produce
-  (`lvl e ≠ none`; any size, any nesting), at every precedence level, followed by any tokens that
-  cannot continue an expression:
+  The rebuilder is modelled at token level (`Syn.printModule` …: one arm per node kind of
+  src/alpha/rebuilder.rs, layout and the `#` markers left out), the parser by the reference parser
+  `Syn.parseModule` … (the grammar of src/delta/parser.rs / src/alpha/parser.rs, tied to both real
+  parsers by checks/c16.py on every run).
 
-      parse (print e ++ rest) = (norm e, rest)
+  `parse_print_module`: for every module whose declarations the parser can produce (`Decl.ok`: any
+  number of declarations, statements, nesting depth, expression size), and any sufficient fuel,
+
+      parseModule (printModule m) = m.map norm
 
   where `norm` only re-spells literals (a suffixed or character literal becomes a plain decimal or
-  hexadecimal one, adjacent string pieces become one literal).  Hence the reparsed tree is the original
-  up to the spelling and suffix of literals, and printing it again gives the same tokens
-  (`print_norm`, `second_rebuild_identical`).
+  hexadecimal one, adjacent string pieces one literal).  So the reparsed tree is the original up to the
+  spelling and suffix of literals, and `print_norm_module`: printing it again gives the same tokens (the
+  second rebuild is identical).  The expression core (`Syn.parse_print_expr`, Syn/ExprRT.lean) holds at
+  every precedence level with any continuation.
 
-  partial: statements and declarations, and the pointer-advance operator `&x .. n`, are covered by the
-  correspondence run of checks/c20.py and checks/c16.py only (`parse_print_module_partial` is not stated).
+  partial: the pointer-advance operator `&x .. n` is excluded from `Expr.lvl` (covered by the
+  correspondence runs only); layout (indentation, line breaks) is not modelled.
 -/
-import PenneModel.Syn.RoundTrip2
+import PenneModel.Syn.DeclRT
 
 namespace Syn
 open Flat (Kind)
 
-/-- **expressions round-trip** at the top level: for every producible tree, any sufficient fuel, and any
-    continuation that does not start with an operator or a token that would extend a primary -/
-theorem parse_print_expr (e : Expr) (h : e.lvl.isSome = true) (rest : List Tok) (hstop : stopA rest = true)
-    (fuel : Nat) (hf : e.need + 4 ≤ fuel) : parseExpr fuel (printExpr e ++ rest) = some (e.norm, rest) :=
-  top_of_all (all_n e.size) e (Nat.le_refl _) h fuel rest hf hstop
+/-- **modules round-trip**, any size -/
+theorem parse_print_module (ds : List Decl) (hok : ∀ d ∈ ds, d.ok = true) (fuel : Nat)
+    (hf : 16 * declsSize ds + 16 ≤ fuel) : parseModule fuel (printModule ds) = some (ds.map Decl.norm) :=
+  module_rt ds hok fuel hf
 
-/-- argument lists, array literals, reference steps and structure-literal fields round-trip -/
-theorem parse_print_args (es : Exprs) (h : es.ok = true) (rest : List Tok) (fuel : Nat) (hf : es.need ≤ fuel) :
-    parseArgs fuel .ParenRight (printArgs es ++ tk .ParenRight :: rest) = some (es.norm, rest) :=
-  ((all_n es.size).2.1 es (Nat.le_refl _) h).1 fuel rest hf
+/-- statements round-trip; an `if` without `else` must not be followed by `else` -/
+theorem parse_print_stmt (s : Stmt) (hok : s.ok = true) (rest : List Tok) (fuel : Nat) (hf : s.need ≤ fuel)
+    (hfollow : s.isOpen = true → kindOf rest ≠ .Else) : parseStmt fuel (printStmt s ++ rest) = some (s.norm, rest) :=
+  stmt_rt s hok fuel rest hf hfollow
 
-theorem parse_print_elems (es : Exprs) (h : es.ok = true) (rest : List Tok) (fuel : Nat) (hf : es.need ≤ fuel) :
-    parseArgs fuel .BracketRight (printElems es ++ tk .BracketRight :: rest) = some (es.norm, rest) :=
-  ((all_n es.size).2.1 es (Nat.le_refl _) h).2 fuel rest hf
-
-theorem parse_print_steps (st : Steps) (h : st.ok = true) (rest : List Tok) (fuel budget : Nat)
-    (hf : st.need ≤ fuel) (hb : st.count < budget) (h1 : kindOf rest ≠ .BracketLeft) (h2 : kindOf rest ≠ .Dot) :
-    parseSteps fuel budget (printSteps st ++ rest) = some (st.norm, rest) :=
-  (all_n st.size).2.2.1 st (Nat.le_refl _) h fuel budget rest hf hb h1 h2
-
-theorem parse_print_fields (fs : Fields) (h : fs.ok = true) (rest : List Tok) (fuel : Nat) (hf : fs.need ≤ fuel) :
-    parseFields fuel (printFields fs ++ tk .BraceRight :: rest) = some (fs.norm, rest) :=
-  (all_n fs.size).2.2.2 fs (Nat.le_refl _) h fuel rest hf
-
-/-! ### a second trip changes nothing -/
-
-theorem isSigned_normKind (k : IntKind) (v : Nat) : (normKind k v).isSigned v = k.isSigned v := by
-  unfold normKind
-  by_cases h : k.isSigned v = true
-  · rw [if_pos h, h]
-    cases k <;> simp_all [IntKind.isSigned]
-  · rw [if_neg h]
-    have : k.isSigned v = false := by simpa using h
-    rw [this]
-    rfl
+theorem optPrint_norm (val : Option Expr) :
+    (match optNorm val with | some e => tk .Assignment :: printExpr e | none => []) =
+    (match val with | some e => tk .Assignment :: printExpr e | none => []) := by
+  cases val <;> simp [optNorm, print_norm]
 
 mutual
-theorem print_norm : ∀ e : Expr, printExpr e.norm = printExpr e
-  | .int k v => by simp [Expr.norm, printExpr, printInt, isSigned_normKind]
-  | .bool _ => rfl
-  | .str parts => by simp [Expr.norm, printExpr, String.join]
-  | .array es => by simp [Expr.norm, printExpr, printElems_norm es]
-  | .structural _ fs => by simp [Expr.norm, printExpr, printFields_norm fs]
-  | .paren e => by simp [Expr.norm, printExpr, print_norm e]
-  | .deref _ _ st => by simp [Expr.norm, printExpr, printSteps_norm st]
-  | .call _ _ args => by simp [Expr.norm, printExpr, printArgs_norm args]
-  | .bin _ l r => by simp [Expr.norm, printExpr, print_norm l, print_norm r]
-  | .un _ e => by simp [Expr.norm, printExpr, print_norm e]
-  | .bitcast e => by simp [Expr.norm, printExpr, print_norm e]
-  | .typecast e _ => by simp [Expr.norm, printExpr, print_norm e]
-  | .lengthOf _ _ st => by simp [Expr.norm, printExpr, printSteps_norm st]
-  | .sizeOf _ => rfl
-theorem printElems_norm : ∀ es : Exprs, printElems es.norm = printElems es
+theorem printStmt_norm : ∀ s : Stmt, printStmt s.norm = printStmt s
+  | .var name ty val => by cases val <;> simp [Stmt.norm, printStmt, optNorm, print_norm]
+  | .assign _ _ st e => by simp [Stmt.norm, printStmt, print_norm, printSteps_norm]
+  | .mcall _ _ args => by simp [Stmt.norm, printStmt, printArgs_norm]
+  | .loop => rfl
+  | .goto _ => rfl
+  | .label _ => rfl
+  | .ifThen _ l r th => by simp [Stmt.norm, printStmt, print_norm, printStmt_norm th]
+  | .ifElse _ l r th el => by simp [Stmt.norm, printStmt, print_norm, printStmt_norm th, printStmt_norm el]
+  | .block ss => by simp [Stmt.norm, printStmt, printStmts_norm ss]
+theorem printStmts_norm : ∀ ss : Stmts, printStmts ss.norm = printStmts ss
   | .nil => rfl
-  | .cons e es => by simp [Exprs.norm, printElems, print_norm e, printElems_norm es]
-theorem printArgs_norm : ∀ es : Exprs, printArgs es.norm = printArgs es
-  | .nil => rfl
-  | .cons e .nil => by simp [Exprs.norm, printArgs, print_norm e]
-  | .cons e (.cons e2 es) => by
-    have := printArgs_norm (.cons e2 es)
-    simp only [Exprs.norm] at this
-    simp [Exprs.norm, printArgs, print_norm e, this]
-theorem printSteps_norm : ∀ st : Steps, printSteps st.norm = printSteps st
-  | .nil => rfl
-  | .member _ rest => by simp [Steps.norm, printSteps, printSteps_norm rest]
-  | .elem e rest => by simp [Steps.norm, printSteps, print_norm e, printSteps_norm rest]
-theorem printFields_norm : ∀ fs : Fields, printFields fs.norm = printFields fs
-  | .nil => rfl
-  | .cons _ e rest => by simp [Fields.norm, printFields, print_norm e, printFields_norm rest]
+  | .cons s ss => by simp [Stmts.norm, printStmts, printStmt_norm s, printStmts_norm ss]
 end
 
-/-- **the second rebuild is identical**: the tree obtained by parsing the printed tokens prints to the same tokens -/
-theorem second_rebuild_identical (e : Expr) (h : e.lvl.isSome = true) (rest : List Tok) (hstop : stopA rest = true)
-    (fuel : Nat) (hf : e.need + 4 ≤ fuel) :
-    ∃ e', parseExpr fuel (printExpr e ++ rest) = some (e', rest) ∧ printExpr e' = printExpr e :=
-  ⟨e.norm, parse_print_expr e h rest hstop fuel hf, print_norm e⟩
+theorem printDecl_norm (d : Decl) : printDecl d.norm = printDecl d := by
+  cases d with
+  | imp _ => rfl
+  | const _ _ _ e => simp [Decl.norm, printDecl, print_norm]
+  | struct _ _ _ _ => rfl
+  | fn fl name params ret body =>
+    cases body with
+    | none => rfl
+    | some b =>
+      obtain ⟨ss, rv⟩ := b
+      cases rv <;> simp [Decl.norm, bodyNorm, optNorm, printDecl, printStmts_norm, print_norm]
 
-/-- the hypotheses are satisfiable by a non-trivial tree: `a + 2 * (-b[0x1]) & !c as u8 , ...` -/
+/-- **the second rebuild is identical**: the reparsed module prints to the same tokens -/
+theorem print_norm_module (ds : List Decl) : printModule (ds.map Decl.norm) = printModule ds := by
+  simp [printModule, List.flatMap_map, printDecl_norm]
+
+theorem second_rebuild_identical_module (ds : List Decl) (hok : ∀ d ∈ ds, d.ok = true) (fuel : Nat)
+    (hf : 16 * declsSize ds + 16 ≤ fuel) :
+    ∃ ds', parseModule fuel (printModule ds) = some ds' ∧ printModule ds' = printModule ds :=
+  ⟨ds.map Decl.norm, parse_print_module ds hok fuel hf, print_norm_module ds⟩
+
+/-- the hypotheses are satisfiable by a non-trivial module:
+    `pub extern fn f(a: &[]u8) -> i32 { var x = 1u8; if a[0] == x { goto done; } else x = -2 * (x + 3); done: return: x as i32 }`
+    and an opaque structure -/
 example :
-    (Expr.bin .BitwiseAnd
-      (.bin .Add (.deref 0 "a" .nil)
-        (.bin .Multiply (.int (.suffixed "i32") 2) (.paren (.un .Negative (.deref 0 "b" (.elem (.int .bit 1) .nil))))))
-      (.un .BitwiseComplement (.deref 1 "c" .nil))).lvl = some 5 ∧ stopA [tk .Comma] = true := by
+    (∀ d ∈ [Decl.fn { pub := true, ext := true } "f" [("a", .ptr (.arraylike (.simple "u8")))] (.simple "i32")
+        (some (.cons (.var "x" none (some (.int (.suffixed "u8") 1)))
+                (.cons (.ifElse .Equals (.deref 0 "a" (.elem (.int .naked 0) .nil)) (.deref 0 "x" .nil)
+                          (.block (.cons (.goto "done") .nil))
+                          (.assign 0 "x" .nil (.bin .Multiply (.un .Negative (.int .naked 2))
+                            (.paren (.bin .Add (.deref 0 "x" .nil) (.int .naked 3))))))
+                  (.cons (.label "done") .nil)),
+               some (.typecast (.deref 0 "x" .nil) (.simple "i32")))),
+      Decl.struct { isOpaque := true } "S" none []], d.ok = true) := by
   decide
 
 end Syn
